@@ -120,6 +120,9 @@ Init ==
 (* overload per value category for nearly every operation (X.op() &, X.op() const&, X.op() &&) and   *)
 (* the requirement is the same for all three: the value category never changes which elements are   *)
 (* designated.  Recvs is overridden in a cfg (Recvs <- RecvsAll) by the runs that enumerate it.        *)
+Ons      == {"view"}
+OnsBoth  == {"view", "array"}
+OnsArray == {"array"}
 Recvs    == {"lv"}
 RecvsAll == {"lv", "const", "rv"}
 RecvsCR  == {"const", "rv"}
@@ -128,7 +131,10 @@ Step(o) ==
   /\ Enabled(o)
   /\ abs'  = ApplyF(abs, o)
   /\ impl' = LApply(impl, o, OneDimQuirk)
-  /\ \E r \in Recvs : path' = Append(path, [op |-> o.op, args |-> o.args, recv |-> r])
+  \* the first operation of a program is applied to a view of the root (A().op()) or to the owning array itself (A.op()):
+  \* an array has overloads of its own for part of the interface; Ons is overridden like Recvs
+  /\ \E r \in Recvs, w \in (IF path = <<>> THEN Ons ELSE {"view"}) :
+       path' = Append(path, [op |-> o.op, args |-> o.args, recv |-> r, on |-> w])
   /\ UNCHANGED root
 
 Next == Len(path) < MaxDepth /\ \E o \in Candidates(abs) : Step(o)
